@@ -166,11 +166,13 @@ EnAB(A, ta, B, tb) == (IF ta THEN A.r ELSE A.c) = (IF tb THEN B.c ELSE B.r)
 EnHStack(A, B)   == A.r = B.r
 EnVStack(A, B)   == A.c = B.c
 EnReshape(A, r, c) == r * c = A.r * A.c
-(* dot on matrices is a vector operation: both operands row vectors or both column
-   vectors, of the same length.  (What a 1xN against an Nx1, or a 2x2 against a 1x4,
-   should do is not said by the statement; such pairs are never generated.)           *)
+(* dot on matrices is a vector operation: both operands are vector shaped (1xN or Nx1) and
+   have the same length; the orientation does not matter ("dot ... do[es] not depend on
+   the ... orientation of the data", C20; DenseMatrix computes 1xN . Nx1 as well).  Vector-
+   shaped operands of different length are an incompatible pair (rejected).  What a 2x2
+   against a 1x4 should do is not said by the statement; such pairs are never generated. *)
 EnDotM(A, B)     == /\ IsVecShaped(A) /\ IsVecShaped(B) /\ Len(A.d) = Len(B.d)
-DotDefined(A, B) == IsVecShaped(A) /\ IsVecShaped(B) /\ (SameShape(A, B) \/ Len(A.d) # Len(B.d))
+DotDefined(A, B) == IsVecShaped(A) /\ IsVecShaped(B)
 EnSlice(A, r0, r1, c0, c1) == 1 <= r0 /\ r0 <= r1 /\ r1 <= A.r /\ 1 <= c0 /\ c0 <= c1 /\ c1 <= A.c
 EnTake(A, idx, axis) == \A i \in 1..Len(idx) : 1 <= idx[i] /\ idx[i] <= (IF axis = 0 THEN A.r ELSE A.c)
 EnIdx(A, i, j)   == 1 <= i /\ i <= A.r /\ 1 <= j /\ j <= A.c
@@ -301,7 +303,9 @@ BuildOps == NativeBuildOps \cup
              "row_vector_from_array", "row_vector_from_vec",
              "column_vector_from_array", "column_vector_from_vec",
              "eye", "zeros", "ones", "fill",
-             "v_from_array", "v_zeros", "v_ones", "v_fill"}
+             "v_from_array", "v_zeros", "v_ones", "v_fill",
+             \* vectors built through the native API (negative stride, stepped, offset into a longer buffer)
+             "v_nat_reversed", "v_nat_strided", "v_nat_offset"}
 (* matrix -> matrix, copying *)
 UnaryOps == {"clone", "transpose", "negative", "abs", "add_scalar", "sub_scalar", "mul_scalar",
              "pow", "binarize", "slice", "reshape", "take"}
@@ -337,7 +341,7 @@ Sem(op, A, B, ia, iv, iw) ==
       [] op = "zeros" -> R_(TRUE, Fill(ia[1], ia[2], 0))
       [] op = "ones"  -> R_(TRUE, Fill(ia[1], ia[2], 1))
       [] op = "fill"  -> R_(TRUE, Fill(ia[1], ia[2], ia[3]))
-      [] op = "v_from_array" -> R_(TRUE, Vec(iv))
+      [] op \in {"v_from_array", "v_nat_reversed", "v_nat_strided", "v_nat_offset"} -> R_(TRUE, Vec(iv))
       [] op = "v_zeros" -> R_(TRUE, MkVec(ia[1], LAMBDA x : 0))
       [] op = "v_ones"  -> R_(TRUE, MkVec(ia[1], LAMBDA x : 1))
       [] op = "v_fill"  -> R_(TRUE, MkVec(ia[1], LAMBDA x : ia[2]))
@@ -402,7 +406,7 @@ QInt(op, A, B, ia) ==
       [] op \in {"norm2sq", "v_norm2sq"} -> Q_(TRUE, <<NormPPow(A, 2)>>)
       [] op \in {"normp", "v_normp"} -> Q_(ia[1] >= 1, <<NormPPow(A, ia[1])>>)
       [] op = "max_diff" -> Q_(SameShape(A, B), <<MaxDiff(A, B)>>)
-      [] op = "dot" -> Q_(EnDotM(A, B) /\ SameShape(A, B), <<Dot(A, B)>>)
+      [] op = "dot" -> Q_(EnDotM(A, B), <<Dot(A, B)>>)
       [] op = "v_dot" -> Q_(A.c = B.c, <<Dot(A, B)>>)
       [] op = "v_len" -> Q_(TRUE, <<A.c>>)
       [] op = "v_get" -> Q_(1 <= ia[1] /\ ia[1] <= A.c, <<A.d[ia[1]]>>)
